@@ -80,6 +80,7 @@ type stFn struct {
 	collectorOps []string
 	sumRight  string // element type injected with Sum.inr ("ε", or "Unit" for token channels); "" = "ε"
 	chanVars  map[string]*stChan // local variables holding one of the stage's channels
+	declChanVars map[string]bool // `var dst chan<- A` seen in the worker
 	rcount    int
 	inHelper  bool // translating the inlined body of a guard helper: `return false` is the goroutine's return
 	helperTail *ast.ReturnStmt
@@ -570,6 +571,13 @@ func (fn *stFn) stmt0(st ast.Stmt, depth int, last bool) []string {
 			for _, sp := range gd.Specs {
 				if vs, ok := sp.(*ast.ValueSpec); !ok || len(vs.Values) != 0 {
 					okAll = false
+				} else if _, isChan := vs.Type.(*ast.ChanType); isChan {
+					if fn.declChanVars == nil {
+						fn.declChanVars = map[string]bool{}
+					}
+					for _, n := range vs.Names {
+						fn.declChanVars[n.Name] = true
+					}
 				}
 			}
 			if okAll {
@@ -583,6 +591,16 @@ func (fn *stFn) stmt0(st ast.Stmt, depth int, last bool) []string {
 				if r, ok := x.Rhs[0].(*ast.Ident); ok {
 					if c, isCh := fn.chans[r.Name]; isCh {
 						if x.Tok == token.DEFINE {
+							if fn.chanVars == nil {
+								fn.chanVars = map[string]*stChan{}
+							}
+							fn.chanVars[l.Name] = &stChan{name: l.Name, elem: c.elem}
+							return []string{fmt.Sprintf("%slet mut %s := %d", p, id(l.Name), c.idx)}
+						}
+						// `var dst chan<- A` in the worker's prologue, assigned here for the first time in this iteration:
+						// a per-iteration local as long as this assignment dominates every use (a use that it does not
+						// dominate is an unbound Lean variable: the tie fails closed)
+						if _, known := fn.chanVars[l.Name]; !known && x.Tok == token.ASSIGN && fn.declChanVars[l.Name] {
 							if fn.chanVars == nil {
 								fn.chanVars = map[string]*stChan{}
 							}
@@ -1600,6 +1618,13 @@ func stage(fd *ast.FuncDecl) string {
 				for _, sp := range gd.Specs {
 					if vs, ok := sp.(*ast.ValueSpec); !ok || len(vs.Values) != 0 {
 						okAll = false
+					} else if _, isChan := vs.Type.(*ast.ChanType); isChan {
+						if fn.declChanVars == nil {
+							fn.declChanVars = map[string]bool{}
+						}
+						for _, n := range vs.Names {
+							fn.declChanVars[n.Name] = true
+						}
 					}
 				}
 				if okAll {
